@@ -130,6 +130,7 @@ fixed("FX-tril-triu-1d", ["C01", "C05", "C15"], "952e4e6", "np.tril/np.triu of a
 fixed("FX-diff-n-exceeds-length", ["C05"], "bf307a4", "np.diff(x, n) with n >= the axis length (empty output) returned zeros of the wrong shape/kind", case("diff", [A(2, 2), 3], tags=["n_exceeds"]))
 F.append({"id": "FX-assert-guards", "status": "fixed", "properties": ["C15"], "commit": "7077fba", "what": "fixed: property=C15 7077fba the unsupported-mode guard of np.pad's VJP and the leading-dimension guard of np.broadcast_to's VJP were `assert`s: under `python -O` a wrong gradient was returned silently (observed by the C15 sub-run under python -O; no separate witness: that sub-run re-executes the whole unsupported-option catalogue on every run)", "match": {"never": "fixed entries suppress nothing"}})
 fixed("FX-bool-list-index", ["C11"], "9518a4b", "x[[True, False, True]] (a Python list of booleans) was converted to the integer index [1, 0, 1]: cotangent scattered to the wrong positions", {"kind": "index", "x": enc(A(3)), "idx": enc([True, False, True]), "cls": "bool_list", "wseed": 1})
+fixed("FX-jvp-chooser-numpy-int-axis", ["C02"], "9eededa", "forward-mode max/min/amax/amin with axis=np.int64(k): NaN / wrongly shaped tangent", case("max", [onp.cos(A(3, 4) * 7.3)], {"axis": onp.int64(1)}))
 fixed("FX-where-jvp-broadcast", ["C05", "C02"], "423a953", "forward-mode np.where returned a tangent with the branch's shape/kind instead of the output's", case("where", [cc, A(3), A(2, 2, 3)], argnum=1), witness_mode="fwd")
 
 out = {"_comment": "Known findings: genuine defects of HIPS/autograd that are recorded rather than repaired (status open) and defects repaired by a 'fix:' commit (status fixed; fixed entries suppress nothing - their witnesses are re-run on every check and a failing one is an ordinary VIOLATION). `match` is a conjunction over fields of the case signature (lists = any of; {__re__}: regex; {__has__}: list membership); never a seed, hash or random value. Read-only at run time.", "findings": F}
